@@ -41,6 +41,9 @@ type JobD struct {
 	// ErrWrap: the error an OutErr job returns wraps context.DeadlineExceeded
 	// (1) or context.Canceled (2): a private timeout of the job's own making.
 	ErrWrap int `json:"err_wrap,omitempty"`
+	// SameDeps k>0: the job is enqueued with the very slice object job k-1 was
+	// enqueued with as Job.Dependencies (callers may reuse one slice).
+	SameDeps int `json:"same_deps,omitempty"`
 }
 
 // Per-job context modes.
@@ -64,6 +67,13 @@ type SchedD struct {
 	Enqueuers  int    `json:"enqueuers,omitempty"`
 	Barrier    bool   `json:"barrier,omitempty"`  // bodies of non-failing jobs meet at an N-party barrier
 	CtxKind    int    `json:"ctx_kind,omitempty"` // 1: the scheduler's context is a user-defined context.Context type
+	// WaitCtx: the context given to Wait. 0: the one the jobs are enqueued
+	// with; 1: a separate context that stays live; 2: a separate context that an
+	// outside party cancels after WaitDelay of its own steps.
+	WaitCtx   int `json:"wait_ctx,omitempty"`
+	WaitDelay int `json:"wait_delay,omitempty"`
+	// SharedErr: every failing job returns one and the same error value.
+	SharedErr bool `json:"shared_err,omitempty"`
 }
 
 // Desc is the complete, self-describing input of one simulated run.
@@ -136,6 +146,12 @@ func Generate(rng *rand.Rand, prop, tier string, gomaxprocs int) *Desc {
 		if tier == "thorough" && rng.Intn(40) == 0 {
 			nj = 40 + rng.Intn(260)
 		}
+		// wide: more workers than any fixed-size internal buffer is likely to hold, all of them busy
+		wide := prop != "C03scale" && rng.Intn(50) == 0
+		if wide {
+			s.N = 65 + rng.Intn(70)
+			nj = s.N + rng.Intn(s.N)
+		}
 		// emitter
 		if rng.Intn(3) == 0 {
 			s.Emitter = true
@@ -152,6 +168,12 @@ func Generate(rng *rand.Rand, prop, tier string, gomaxprocs int) *Desc {
 		}
 		cancelP := 8 // 1 in cancelP runs has a cancellation
 		edgeP := 2 + rng.Intn(5)
+		if wide {
+			edgeP = 30 * nj
+			if errRate > 40 {
+				errRate = 10 + rng.Intn(30)
+			}
+		}
 		switch prop {
 		case "C07":
 			s.COE = false
@@ -223,6 +245,11 @@ func Generate(rng *rand.Rand, prop, tier string, gomaxprocs int) *Desc {
 		if rng.Intn(6) == 0 && s.CancelMode != CancelDeadline {
 			s.CtxKind = 1
 		}
+		s.SharedErr = rng.Intn(6) == 0
+		if rng.Intn(8) == 0 && !s.Barrier && prop != "C03scale" {
+			s.WaitCtx = 1 + rng.Intn(2)
+			s.WaitDelay = rng.Intn(12 + 6*nj)
+		}
 		if rng.Intn(8) == 0 && !s.Barrier && prop != "C03scale" {
 			s.Enqueuers = 1 + rng.Intn(2)
 		}
@@ -254,6 +281,17 @@ func Generate(rng *rand.Rand, prop, tier string, gomaxprocs int) *Desc {
 					}
 				}
 			}
+			if !s.Barrier && j > 0 && rng.Intn(8) == 0 {
+				// reuse an earlier job's Dependencies slice (same submitter, so it exists by then)
+				for tries := 0; tries < 4; tries++ {
+					k := rng.Intn(j)
+					if len(s.Jobs[k].Deps) > 0 && s.Jobs[k].Enq == jd.Enq {
+						jd.Deps = append([]int{}, s.Jobs[k].Deps...)
+						jd.SameDeps = k + 1
+						break
+					}
+				}
+			}
 			jd.Len = rng.Intn(4)
 			if rng.Intn(10) == 0 {
 				jd.Len = 4 + rng.Intn(8)
@@ -270,7 +308,7 @@ func Generate(rng *rand.Rand, prop, tier string, gomaxprocs int) *Desc {
 			} else if r < errRate+goexitRate {
 				jd.Out = OutGoexit
 			}
-			if (s.CancelMode == CancelDeadline || s.CancelMode == CancelExternal) && rng.Intn(6) == 0 {
+			if s.waitWillBeCancelled() && rng.Intn(6) == 0 {
 				jd.Stuck = true
 			}
 			s.Jobs = append(s.Jobs, jd)
@@ -327,6 +365,9 @@ func Generate(rng *rand.Rand, prop, tier string, gomaxprocs int) *Desc {
 					if s.Jobs[i].Ctx == CtxOwnCancelledBy {
 						s.Jobs[i].CtxBy += len(pre)
 					}
+					if s.Jobs[i].SameDeps > 0 {
+						s.Jobs[i].SameDeps += len(pre)
+					}
 				}
 				s.Jobs = append(pre, s.Jobs...)
 			}
@@ -361,6 +402,15 @@ func Generate(rng *rand.Rand, prop, tier string, gomaxprocs int) *Desc {
 	return d
 }
 
+// waitWillBeCancelled: the context Wait is given is cancelled by an outside
+// party sooner or later, whatever the jobs do.
+func (s *SchedD) waitWillBeCancelled() bool {
+	if s.WaitCtx == 2 {
+		return true
+	}
+	return s.WaitCtx == 0 && (s.CancelMode == CancelDeadline || s.CancelMode == CancelExternal)
+}
+
 // Valid reports whether the descriptor is one the generator could have
 // produced as far as the harness's own preconditions go: a barrier workload
 // needs at least Limit jobs that can meet at the barrier (independent,
@@ -369,6 +419,14 @@ func Generate(rng *rand.Rand, prop, tier string, gomaxprocs int) *Desc {
 func (d *Desc) Valid() bool {
 	for i := range d.Scheds {
 		s := &d.Scheds[i]
+		// a job held until the caller has returned needs something that makes Wait return without it
+		if !s.waitWillBeCancelled() {
+			for _, jd := range s.Jobs {
+				if jd.Stuck {
+					return false
+				}
+			}
+		}
 		if !s.Barrier {
 			continue
 		}
